@@ -331,6 +331,10 @@ def main(rep, tier, only):
         seen.add(key)
         rets = [T.show(T.snorm(u, fn, r.get("e"))) for r in F.walk(fn.get("body"), into_lambdas=False) if r.get("k") == "return"]
         ok = len(rets) == 1 and rets[0] == want[k]
+        if not ok and len(rets) == 1 and short not in ("pos", "max"):
+            # a member may go through the accessors pos() / max(), which this rule separately shows to BE min_ / max_
+            r2 = re.sub(r"(?:this\.)?pos\(\)", "min_", re.sub(r"(?:this\.)?max\(\)", "max_", rets[0])).replace("this.", "")
+            ok = r2 == want[k]
         (rep.ok if ok else rep.fail)("ACC", key, F.primary_site(fn), F.describe(fn)[:160],
                                      **({"how": rets[0]} if ok else {"why": "%s returns %s, the box's representation contract says %s" % (key, rets, want[k])}))
     if only in (None, "BOXARITH", "CORNERS"):
